@@ -43,6 +43,8 @@ def main():
         },
         "engines": [
             {"name": "hypothesis+enumeration", "path": "vlib/runner.py", "serves_properties": sorted(CHECKS), "kind_free_text": "Hypothesis 6.168 strategies sharded over 16 forked workers + exhaustive enumeration of small finite sub-domains; explicit oracles per clause; shrunk failures become JSON replay files"},
+            {"name": "atheris", "path": "fuzz/target.py", "serves_properties": ["C14", "C15"], "kind_free_text": "atheris 3.1 / libFuzzer coverage-guided campaigns (han/ instrumented) through the same oracles as the Hypothesis clauses; run by vlib/fuzzrun.py as FuzzClause, crash inputs re-confirmed deterministically"},
+            {"name": "virtual-time asyncio loop", "path": "vlib/vtloop.py", "serves_properties": ["C17", "C18"], "kind_free_text": "SelectorEventLoop subclass whose selector advances a virtual clock; per-iteration hook for close() injection; fake connection factory/transport; busy-loop and quiescence detection"},
         ],
         "checks": checks,
         "not_applicable": na,
